@@ -80,7 +80,7 @@ func TestGovcBoundedIdentifierize(t *testing.T) {
 }
 `
 
-func (w *World) boundedC14(opts *RunOpts, ex *Extra) {
+func (w *World) boundedC14(id string, opts *RunOpts, ex *Extra) {
 	maxLen := 4
 	if opts.Thorough {
 		maxLen = 5
@@ -111,8 +111,8 @@ func (w *World) boundedC14(opts *RunOpts, ex *Extra) {
 		return
 	}
 	if bad > 0 {
-		path := writeTextReplay(opts, "C14", "Identifierize/bounded-posts", strings.Join(fails, "\n"), src, "internal/x/text", cmd)
-		ex.Lines = append(ex.Lines, fmt.Sprintf("VIOLATION property=C14 replay=%s", path))
+		path := writeTextReplay(opts, id, "Identifierize/bounded-posts", strings.Join(fails, "\n"), src, "internal/x/text", cmd)
+		ex.Lines = append(ex.Lines, fmt.Sprintf("VIOLATION property=%s replay=%s", id, path))
 		ex.Lines = append(ex.Lines, fmt.Sprintf("  bounded check of Identifierize on the real code: %d of %d inputs violate a post; first: %s", bad, total, fails[0]))
 		ex.Violations++
 	}
